@@ -21,6 +21,7 @@ pub fn profile(name: &str) -> Option<Profile> {
         "c01" => Profile {
             name: "c01",
             oracles: Oracles { c01: true, ..Default::default() },
+            gen_cfg: GenCfg { w_signer: 2, ..GenCfg::default() },
             ..base
         },
         "c05" => Profile {
@@ -60,6 +61,7 @@ pub fn profile(name: &str) -> Option<Profile> {
                 w_removal: 28,
                 w_keyroll: 12,
                 w_class_map: 12,
+                w_signer: 3,
                 ..GenCfg::default()
             },
             ..base
